@@ -4,6 +4,7 @@ import (
 	"context"
 	"fmt"
 	"math/rand"
+	"sync"
 	"sync/atomic"
 	"time"
 
@@ -52,7 +53,22 @@ func RunCommitSync(seed int64, idx int) *Result {
 	g := newGate()
 	g.Open()
 	g.lagUs = rng.Intn(600)
-	nd.BlockCommit = func(ctx context.Context, h uint64) { g.waitAt(context.Background(), h) } // parks until the script opens the gate
+	// the commit callback parks until the script opens the gate; in half of the cases it also gives up when the context it
+	// was handed is cancelled (a consumer that honours the context)
+	ctxAware := rng.Intn(2) == 0
+	var cbMu sync.Mutex
+	var cbCtx context.Context
+	nd.BlockCommit = func(ctx context.Context, h uint64) {
+		cbMu.Lock()
+		cbCtx = ctx
+		cbMu.Unlock()
+		if ctxAware {
+			g.waitAt(ctx, h)
+		} else {
+			g.waitAt(context.Background(), h)
+		}
+	}
+	lastCbCtx := func() context.Context { cbMu.Lock(); defer cbMu.Unlock(); return cbCtx }
 	sendGate := newGate()
 	sendGate.Open()
 	net.HoldSend = func(from *RNode, m *interfaces.ConsensusRawMessage) {
@@ -60,7 +76,7 @@ func RunCommitSync(seed int64, idx int) *Result {
 			sendGate.wait(context.Background())
 		}
 	}
-	desc := fmt.Sprintf("node %s follows a scripted committee; commit-callback lag=%dus logDelays=%d", nd.Id, g.lagUs, len(delays))
+	desc := fmt.Sprintf("node %s follows a scripted committee; commit-callback honours its context=%v lag=%dus logDelays=%d", nd.Id, ctxAware, g.lagUs, len(delays))
 	nd.Start()
 	call := func(b *spi.Blk) bool {
 		done := make(chan struct{})
@@ -214,6 +230,16 @@ func RunCommitSync(seed int64, idx int) *Result {
 			if len(hs) > 0 {
 				nd.Barrier() // the main loop is done with every one of them: what it forwarded sits in the worker's slot
 				net.count("C14 syncs pending while the commit callback runs")
+				// C15: the context handed to the commit callback is cancelled by a sync to a higher height, and by nothing older
+				if cc := lastCbCtx(); cc != nil {
+					net.count("C15 commit-callback contexts judged")
+					if stale && cc.Err() != nil {
+						net.violate("C15", "older-event-cancelled-the-commit-callback-context", "the commit callback of height %d was running when UpdateState heights %v (all below that height) were handled: its context is cancelled", h0, hs)
+					}
+					if !stale && cc.Err() == nil {
+						net.violate("C15", "context-not-cancelled-when-told-to-leave", "the commit callback of height %d was running when UpdateState heights %v (one at or above that height) were handled; after a main-loop barrier its context is still live", h0, hs)
+					}
+				}
 			}
 			g.Open()
 			if nd.Witness(64) < 64 {
@@ -289,6 +315,38 @@ func RunCommitSync(seed int64, idx int) *Result {
 			}
 			prevSig = nil
 		}
+	}
+	// shutdown while the commit callback waits on its context
+	if ctxAware && rng.Intn(2) == 0 {
+		h0, _ := nd.HV()
+		g.Close()
+		if !drive(h0, rng.Intn(3) == 0) {
+			net.count("inconclusive: scripted commit did not happen")
+			return finish()
+		}
+		parked := false
+		for i := 0; i < 50000 && !parked; i++ {
+			parked = atomic.LoadInt32(&g.parked) > 0
+			time.Sleep(100 * time.Microsecond)
+		}
+		if !parked {
+			net.count("inconclusive: commit callback did not park")
+			return finish()
+		}
+		net.count("C16 shutdowns judged")
+		net.count("C16 shutdowns while the commit callback waits on its context")
+		nd.Cancel()
+		c2, cancel2 := context.WithTimeout(context.Background(), 20*time.Second)
+		nd.Waiter.WaitUntilShutdown(c2)
+		if c2.Err() != nil {
+			_, tops := libGoroutines()
+			net.violate("C16", "wait-until-shutdown-did-not-return", "the Run context was cancelled while the commit callback of height %d waits on the context it was handed: WaitUntilShutdown still blocked after 20 s; library goroutines: %v", h0, tops)
+			net.violate("C15", "blocking-spi-call-stalls-shutdown", "the commit callback of height %d waits on the context it was handed; shutdown did not cancel that context (WaitUntilShutdown blocked for 20 s)", h0)
+		}
+		cancel2()
+		g.Open()
+		net.offlineC13()
+		return net.result("commitsync", idx, seed, desc)
 	}
 	// shutdown while the transport is slow inside the send of the node's own COMMIT (sent on the way to committing on the
 	// others' COMMITs)
